@@ -135,6 +135,123 @@ KERNELS = ["beta", "exponential", "inversegamma", "laplace", "loglaplace", "logn
            "triangular"]
 
 
+# ---------------------------------------------------------------------------- argument / parameter types
+# C18 quantifies over arguments (numbers), not over Python floats: the same number may reach erf / erfinv / gamma and
+# the kernel generators as a Python int, a numpy integer scalar of any width / signedness, a single-precision scalar
+# or a 0-d array.  A type name is "int", "float", a numpy scalar type, or "arr0:<dtype>" (0-d array).
+NP_INTS = ["int8", "int16", "int32", "int64", "uint8", "uint16", "uint32", "uint64"]
+ARG_TYPES = ["int", "float"] + NP_INTS + ["float32", "float64", "arr0:int64", "arr0:int32", "arr0:uint8", "arr0:float32",
+                                          "arr0:float64"]
+# a float32 argument: whether the approximation is then carried in single or in double precision is left open by the
+# text (the documented argument type is `float`); the tolerances are widened by a single-precision rounding budget
+# (~170 ulp of float32: a product of up to 29 factors, a 9-term polynomial, a quotient)
+SINGLE_BUDGET = 1e-5
+F32_TINY = 1.1e-19          # below this x*x is subnormal / zero in single precision (known finding C18-erfinv-underflow)
+# parameter types of the kernel generators (unsigned numpy scalars are outside the class: `-_lambda`, `-size` wrap
+# around by numpy's own rules) and the types the `size` argument is given in
+PARAM_TYPES = ["int", "int64", "int32", "int16", "float32", "float64"]
+SIZE_TYPES = ["int", "int64", "int32", "int16"]
+PARAM_INT_MAX = 32          # integer-typed parameters are kept small: integer-only subexpressions stay in range
+
+
+def ty_parse(ty):
+    """(kind, numpy dtype or None, 0-d array?) of an argument-type name; kind is "pyint", "pyfloat", "i", "u" or "f";
+    None if the name is outside the class"""
+    if not isinstance(ty, str):
+        return None
+    if ty == "int":
+        return "pyint", None, False
+    if ty == "float":
+        return "pyfloat", None, False
+    arr0 = ty.startswith("arr0:")
+    name = ty[5:] if arr0 else ty
+    if name in NP_INTS or name in ("float32", "float64"):
+        dt = np.dtype(name)
+        return dt.kind, dt, arr0
+    return None
+
+
+def ty_integer(ty) -> bool:
+    return ty_parse(ty)[0] in ("pyint", "i", "u")
+
+
+def ty_unsigned(ty) -> bool:
+    return ty_parse(ty)[0] == "u"
+
+
+def ty_single(ty) -> bool:
+    pr = ty_parse(ty)
+    return pr is not None and pr[0] == "f" and pr[1].itemsize == 4
+
+
+def ty_holds(ty, v: float) -> bool:
+    """the number v is exactly representable in the type"""
+    kind, dt, _ = ty_parse(ty)
+    if not math.isfinite(v):
+        return False
+    if kind == "pyfloat":
+        return True
+    if kind == "pyint":
+        return v == int(v) and abs(v) < 2.0 ** 63        # numpy takes a Python int only while it fits an integer dtype
+    if kind in "iu":
+        info = np.iinfo(dt)
+        return v == int(v) and info.min <= int(v) <= info.max
+    with np.errstate(all="ignore"):
+        return float(dt.type(v)) == v
+
+
+def ty_domain(ty, xs, both_signs=False):
+    """None when every argument (and its negation, where the oddness check forms it) is representable in the
+    argument type, else the reason: the case is then outside the class (undetermined)"""
+    if ty_parse(ty) is None:
+        return f"argument type {ty!r} outside the class"
+    signed = not ty_unsigned(ty)
+    for v in xs:
+        if not ty_holds(ty, v) or (both_signs and signed and not ty_holds(ty, -v)):
+            return f"argument not representable in {ty}"
+    return None
+
+
+def ty_make(ty):
+    """number (a float holding a representable value) -> the typed argument"""
+    kind, dt, arr0 = ty_parse(ty)
+    if kind == "pyfloat":
+        return float
+    if kind == "pyint":
+        return lambda v: int(v)
+    py = (lambda v: int(v)) if kind in "iu" else float
+    if arr0:
+        return lambda v: np.array(py(v), dtype=dt)
+    return lambda v: dt.type(py(v))
+
+
+def ty_group(ty) -> str:
+    kind, dt, arr0 = ty_parse(ty)
+    if arr0:
+        return "0-d-array"
+    return {"pyint": "python-int", "pyfloat": "python-float", "i": "numpy-signed-integer", "u": "numpy-unsigned-integer",
+            "f": "numpy-" + (dt.name if dt is not None else "")}[kind]
+
+
+def to_single(xs):
+    """the single-precision neighbours of a list of floats (distinct, finite)"""
+    out, seen = [], set()
+    for x in xs:
+        with np.errstate(all="ignore"):
+            v = float(np.float32(x))
+        if math.isfinite(v) and v not in seen:
+            seen.add(v)
+            out.append(v)
+    return out
+
+
+# integer arguments of erf around the widths at which a power x**2 .. x**4 formed in integer arithmetic leaves
+# int8 / int16 / int32 / int64 (4, 12, 14, 182, 216, 1291, 46341, 55109, 2097152, 3037000500, 2**31, 2**32)
+ERF_INTS = [0, 1, 2, 3, 4, 5, 6, 7, 10, 11, 12, 13, 14, 15, 16, 31, 32, 100, 127, 128, 181, 182, 215, 216, 217, 255, 256,
+            1000, 1290, 1291, 32767, 32768, 46340, 46341, 55108, 55109, 65535, 65536, 10 ** 6, 2097151, 2097152,
+            2 ** 31 - 1, 2 ** 31, 2 ** 32 - 1, 2 ** 32, 3037000499, 3037000500, 2 ** 53]
+
+
 class C18(Prop):
     id = "C18"
     anchored = ["src/pewlib/process/convolve.py"]
@@ -171,7 +288,23 @@ class C18(Prop):
             "ulp) and math.gamma (rel 3e-7, 1e-9..30, integers and their float neighbours); erf and gamma additionally "
             "against the exact Lean evaluation of the approximation as coded; erfinv against erfinvWith (the code's structure "
             "around pi, log1p, sqrt: math.pi, math.log1p's value, a 30-digit rational square root; rel 1e-10); oddness "
-            "checked bit-exactly. "
+            "checked bit-exactly. ARGUMENT-TYPE CLASS (erf / erfinv / gamma:argtype:*, ~7 % of the generated cases plus ~450 "
+            "targeted): the same numbers handed over as Python int, numpy signed and unsigned integer scalars of every width "
+            "(int8 .. uint64), float32 / float64 scalars and 0-d arrays (erf also as 1-d arrays of those dtypes): gamma at "
+            "every integer 1..30 in every integer type, checked against the Lean specification Gamma(n) = (n-1)! "
+            "(gammaApprox_nat: the model equals it exactly; (n-1)! leaves int32 at n = 14, int64 at n = 22) as well as "
+            "math.gamma; erf at integers around the widths where x**2 .. x**4 leave int8 / int16 / int32 / int64; erfinv at "
+            "the integer 0; the dense grids' single-precision neighbours as float32 scalars and arrays (every tolerance, "
+            "against the true function and against the model, widened by a single-precision rounding budget of 1e-5: the "
+            "text does not say in which precision a float32 argument is processed; erfinv for |x| >= 1.1e-19, below that "
+            "x*x underflows in single precision - the single-precision form of known finding C18-erfinv-underflow, one "
+            "targeted case). An "
+            "exception raised for an argument type is a violation. PARAMETER-TYPE CLASS (kernel:param-type:* / "
+            "kernel:size-type:*, ~7 % of the generated cases plus 200 targeted): shape, location, scale and shift of every "
+            "generator as Python int, numpy int16 / int32 / int64, float32 and float64 scalars (every parameter whose value the "
+            "type holds; integer beta / inverse-gamma shapes up to 15 + 15 and 25, so gamma() is reached with integer-typed "
+            "arguments up to 30), the size as Python int or numpy int16 / int32 / int64; same checks as for float parameters "
+            "(a float32 parameter anywhere: axis 1e-6, unit sum 1e-5, weights 1e-5, exp underflow at -70). "
             "non-trivial = every case; distinct by canonical case hash")
     trusted = ["np.pad(mode='edge'), np.convolve(mode='valid'), np.linspace, np.stack, Python slicing as documented; "
                "irfft(rfft(c, r)/rfft(psf, r), r) equals the power-series quotient when the quotient has fewer than r "
@@ -203,6 +336,13 @@ class C18(Prop):
                    "dtype class: every sample representable in its container and every partial sum of the convolution exact in "
                    "numpy's result dtype (no integer wrap-around - uint8 signals/kernels are kept small -, no float32 rounding); "
                    "evaluate recomputes this bound for any case and counts a case outside it as undetermined",
+                   "argument-type class: every argument is exactly representable in its type (evaluate checks it for any case: "
+                   "otherwise undetermined); float16 is outside the class (half precision cannot carry 3e-7 or 6e-3: gamma(float16) "
+                   "is off by 4e-4 because 1.0 / x is then a half-precision quotient); parameter-type class: integer-typed "
+                   "parameters |v| <= 32, float32 parameters multiples of 1/64 up to 64, so that integer-only / single-precision "
+                   "subexpressions (size*scale + shift, a*(a - b), 2*power) are exact; inversegamma with two numpy-integer shapes "
+                   "whose beta**alpha leaves their type is undetermined; unsigned numpy scalars as parameters or size are outside "
+                   "the class (-_lambda, -size wrap around by numpy's rules)",
                    "kernel cases are checked against the documented domain inside evaluate (triangular a <= 0 <= b, a < b and an "
                    "axis point that carries density whichever way the float axis rounds; beta axis inside [0, 1]; one-sided "
                    "generators x > 0, exponential x >= 0; symmetric generators: an axis point within the underflow range of the "
@@ -291,7 +431,12 @@ class C18(Prop):
 
     def generate(self, rng, tier):
         kind = rng.choice(["convolve"] * 4 + ["deconv"] * 3 + ["deconv-raw"] + ["kernel"] * 4 + ["erf", "erfinv", "gamma"]
-                          + ["kernel-boundary"] * 3 + ["convolve-dtype"] * 2 + ["deconv-dtype"] * 3)
+                          + ["kernel-boundary"] * 3 + ["convolve-dtype"] * 2 + ["deconv-dtype"] * 3
+                          + ["special-argtype"] * 2 + ["kernel-param-type"] * 2)
+        if kind == "special-argtype":
+            return self.gen_special_argtype(rng)
+        if kind == "kernel-param-type":
+            return self.gen_kernel_param_type(rng)
         if kind == "kernel-boundary":
             return self.gen_kernel_boundary(rng)
         if kind == "convolve-dtype":
@@ -489,7 +634,78 @@ class C18(Prop):
         return {"kind": "deconv", "x": x, "psf": [p0] + rest, "mode": rng.choice(["valid", "same"]), "pden": pden,
                 "xdt": xdt, "pdt": pdt}
 
+    # -- class "argtype": the argument of erf / erfinv / gamma in every type that can carry the number
+    def gen_special_argtype(self, rng, fn=None, ty=None):
+        fn = fn or rng.choice(["gamma", "gamma", "erf", "erfinv"])
+        ty = ty or rng.choice([t for t in ARG_TYPES if t != "float"])
+        arr0 = ty_parse(ty)[2]
+        integer, single = ty_integer(ty), ty_single(ty)
+        fit = lambda xs: [x for x in (to_single(xs) if single else xs) if ty_holds(ty, x)]
+        if fn == "gamma":
+            if integer:
+                xs = [float(rng.randint(1, 30)) for _ in range(24)]
+            else:
+                xs = fit([rng.choice([rng.random() * 30, rng.random(), 10 ** rng.uniform(-9, 0), float(rng.randint(1, 30)),
+                                      rng.randint(1, 29) + 10 ** rng.uniform(-6, 0)]) for _ in range(32)])
+            return {"kind": "gamma", "xs": [x for x in xs if 0 < x <= 30], "ty": ty}
+        if fn == "erf":
+            if integer:
+                xs = [rng.choice([-1, 1]) * rng.choice([rng.randint(0, 10), rng.randint(0, 300), rng.choice(ERF_INTS),
+                                                        rng.randint(0, 2 ** 31)]) for _ in range(32)]
+                xs = [float(x) for x in xs if ty_domain(ty, [float(x)], both_signs=True) is None]
+            else:
+                xs = fit([rng.choice([-1, 1]) * rng.choice([rng.random() * 6, rng.random(), 10 ** rng.uniform(-12, 3),
+                                                            10 ** rng.uniform(3, 38)]) for _ in range(48)])
+            return {"kind": "erf", "xs": xs, "array": (not arr0) and rng.random() < 0.5, "ty": ty}
+        if integer:
+            return {"kind": "erfinv", "xs": [0.0], "ty": ty}          # the only integer in (-1, 1)
+        lo = -18.0 if single else -99.0
+        xs = fit([rng.choice([-1, 1]) * rng.choice([rng.random(), 10 ** rng.uniform(lo, 0),
+                                                    1 - 10 ** rng.uniform(-7.2 if single else -15.9, 0)]) for _ in range(48)])
+        return {"kind": "erfinv", "xs": [x for x in xs if 0 < abs(x) < 1 and not (single and abs(x) < F32_TINY)], "ty": ty}
+
+    # -- class "param-type": the parameters (and the size) of the kernel generators as Python ints, numpy integer
+    #    scalars and single-precision scalars; every parameter whose value the type holds is passed in that type
+    def gen_kernel_param_type(self, rng, name=None, ptype=None):
+        name = name or rng.choice(KERNELS)
+        ptype = ptype or rng.choice(["int", "int", "int64", "int32", "int16", "float32", "float64"])
+        frac = ptype in ("float32", "float64")
+        size = rng.choice([2, 3, 4, 5, 10, 10, 17, 32, 64])
+        num = lambda lo, hi: float(rng.randint(lo, hi)) if not frac or rng.random() < 0.4 else rng.randint(lo * 8, hi * 8) / 8
+        case = {"kind": "kernel", "name": name, "size": size, "ptype": ptype, "sizetype": rng.choice(SIZE_TYPES)}
+        if name == "beta":
+            case["size"] = max(size, 3)
+            hi = rng.choice([3, 8, 15])                      # integer shapes up to 15: gamma(alpha + beta) up to gamma(30)
+            case["args"] = [num(1, hi), num(1, hi)]
+            case["scale"], case["shift"] = rng.choice([(1.0, 0.0), (1.0, 0.0), (-1.0, 1.0)] + ([(0.5, 0.5), (0.5, 0.25)] if frac else []))
+        elif name in POS_KERNELS:
+            case["scale"] = rng.choice([1.0, 1.0, 2.0, 3.0] + ([0.5, 1.5] if frac else []))
+            case["shift"] = rng.choice([1.0, 2.0] + ([1e-6] if ptype != "float32" else []) + ([0.5, 0.125] if frac else [])
+                                       + ([0.0] if name == "exponential" else []))
+            case["args"] = {"exponential": lambda: [max(0.125, num(1, 5) if rng.random() < 0.8 else num(0, 1))],
+                            "inversegamma": lambda: [num(1, rng.choice([3, 8, 25] if ptype in ("int", "int64", "float32", "float64")
+                                                                       else [3, 13] if ptype == "int32" else [3, 6])), num(1, 5)],
+                            "loglaplace": lambda: [num(1, 3), num(-1, 3)],
+                            "lognormal": lambda: [num(1, 2), num(-1, 3)]}[name]()
+        else:
+            scale = rng.choice([1.0, 1.0, 2.0, -1.0] + ([0.5, 1.5] if frac else []))
+            shift = num(-3, 3) if rng.random() < 0.5 else 0.0
+            half = abs(size * 0.5 * scale)
+            step = 2 * half / (size - 1)
+            case["scale"], case["shift"] = scale, shift
+            if name == "triangular":
+                lo = int(math.ceil(step + abs(shift))) + 1  # the axis point(s) next to `shift` lie strictly inside (a, b)
+                case["args"] = [-num(lo, lo + 4), num(lo, lo + 4)]
+            else:
+                width = num(1, 3)
+                loc = float(round(shift + rng.uniform(-half, half))) if not frac else round((shift + rng.uniform(-half, half)) * 8) / 8
+                case["args"] = [width, loc]
+                if name == "super_gaussian":
+                    case["args"].append(rng.choice([1, 2, 3, 4]))
+        return case
+
     def targeted(self, tier):
+        yield from self.targeted_types()
         for ch in chunks(erf_grid()):
             yield {"kind": "erf", "xs": ch, "array": True}
         yield {"kind": "erf", "xs": [-1.0, 1.0, 0.1, 10.0, -0.5], "array": False}
@@ -574,6 +790,63 @@ class C18(Prop):
             for psf in ([0, 1, 0], [1, 2, 1], [1, 0], [2, 1, 0, 3], [1]):
                 yield {"kind": "convolve", "x": [v % 10 for v in sig], "psf": psf, "xden": 1, "pden": 1, "xdt": xdt, "pdt": pdt}
                 yield {"kind": "convolve", "x": [7] * (len(psf) + 2), "psf": psf, "xden": 1, "pden": 1, "xdt": xdt, "pdt": pdt}
+
+    def targeted_types(self):
+        """argument types x the dense grids (integers 1..30 in every integer type, the grids' single-precision
+        neighbours), parameter types x every generator"""
+        for ty in ARG_TYPES:
+            if ty == "float":
+                continue
+            arr0 = ty_parse(ty)[2]
+            if ty_integer(ty):
+                yield {"kind": "gamma", "xs": [float(i) for i in range(1, 31)], "ty": ty}
+                xs = [float(s * v) for v in ERF_INTS for s in (1, -1) if ty_domain(ty, [float(s * v)], both_signs=True) is None]
+                xs = list(dict.fromkeys(xs))
+                for ch in chunks(xs):
+                    yield {"kind": "erf", "xs": ch, "array": False, "ty": ty}
+                    if not arr0:
+                        yield {"kind": "erf", "xs": ch, "array": True, "ty": ty}
+                yield {"kind": "erfinv", "xs": [0.0], "ty": ty}
+                continue
+            single = ty_single(ty)
+            thin = 3 if arr0 else 1                             # the 0-d arrays get every third grid point
+            g = [x for x in (to_single(gamma_grid()) if single else gamma_grid()) if 0 < x <= 30][::thin]
+            for ch in chunks(g, 64):
+                yield {"kind": "gamma", "xs": ch, "ty": ty}
+            e = (to_single(erf_grid()) if single else erf_grid())[::thin]
+            for ch in chunks(e):
+                yield {"kind": "erf", "xs": ch, "array": not arr0, "ty": ty}
+            yield {"kind": "erf", "xs": [-1.0, 1.0, 0.5, 10.0, -0.5, 0.0], "array": False, "ty": ty}
+            ei = [x for x in (to_single(erfinv_grid()) if single else erfinv_grid())
+                  if abs(x) < 1 and not (single and 0 < abs(x) < F32_TINY)][::thin]
+            for ch in chunks(ei):
+                yield {"kind": "erfinv", "xs": ch, "ty": ty}
+        # x*x underflows in single precision: the single-precision form of known finding C18-erfinv-underflow
+        yield {"kind": "erfinv", "xs": to_single([1e-30, -1e-25, 1e-20]), "ty": "float32"}
+        P = lambda name, size, args, scale, shift, ptype, stype: {"kind": "kernel", "name": name, "size": size, "args": args,
+                                                                  "scale": scale, "shift": shift, "ptype": ptype, "sizetype": stype}
+        for ptype, stype in [("int", "int"), ("int64", "int64"), ("int32", "int32"), ("int16", "int16"), ("float32", "int"),
+                             ("float64", "int64")]:
+            for size in (3, 10):
+                yield P("beta", size, [1.0, 2.0], 1.0, 0.0, ptype, stype)
+                yield P("beta", size, [12.0, 13.0], 1.0, 0.0, ptype, stype)          # gamma(25) behind the normalisation
+                yield P("beta", size, [15.0, 15.0], -1.0, 1.0, ptype, stype)
+                yield P("exponential", size, [1.0], 1.0, 0.0, ptype, stype)
+                yield P("exponential", size, [2.0], 2.0, 1.0, ptype, stype)
+                yield P("inversegamma", size, [1.0, 1.0], 1.0, 1.0, ptype, stype)
+                if ptype not in ("int32", "int16"):                                  # 5**22 fits int64 only
+                    yield P("inversegamma", size, [22.0, 5.0], 1.0, 1.0, ptype, stype)
+                yield P("inversegamma", size, [6.0, 5.0], 2.0, 1.0, ptype, stype)
+                yield P("laplace", size, [1.0, 1.0], 1.0, 0.0, ptype, stype)
+                yield P("loglaplace", size, [1.0, 0.0], 1.0, 1.0, ptype, stype)
+                yield P("lognormal", size, [1.0, 0.0], 2.0, 1.0, ptype, stype)
+                yield P("normal", size, [1.0, 1.0], 1.0, 0.0, ptype, stype)
+                yield P("normal", size, [2.0, -1.0], -1.0, 2.0, ptype, stype)
+                yield P("super_gaussian", size, [1.0, 0.0, 2], 1.0, 0.0, ptype, stype)
+                yield P("triangular", size, [-5.0, 5.0], 1.0, 0.0, ptype, stype)
+                yield P("triangular", size, [-4.0, 3.0], 2.0, 1.0, ptype, stype)
+            yield P("triangular", 9, [-5.0, 0.0], 1.0, 0.0, ptype, stype)           # mode on the limit and on the axis
+            yield P("triangular", 9, [0.0, 4.0], -1.0, 0.0, ptype, stype)
 
     # ------------------------------------------------------------------ evaluation
     def evaluate(self, case, ctx):
@@ -748,42 +1021,100 @@ class C18(Prop):
         impl = {"n": len(xs), "outside_tolerance": bad}
         spec = {"n": len(xs), "outside_tolerance": []}
         model = {"n": len(xs), "differs_from_exact_evaluation": badm}
-        feats = {name}
+        feats = {name} | self.argtype_features(name, case.get("ty", "float"))
         if any(x < 0 for x in xs):
             feats.add(name + ":negative")
         if any(0 < abs(x) < 1e-6 for x in xs):
             feats.add(name + ":tiny")
         return impl, model, spec, not bad, not badm, feats
 
+    @staticmethod
+    def guarded(fn, errors):
+        """fn(list) -> list of floats; an exception of the implementation (an argument type it does not take) becomes
+        NaN for every argument - outside every tolerance - and its class name is recorded"""
+        def run(xs):
+            try:
+                return fn(xs)
+            except Exception as e:      # noqa: BLE001 - whatever the implementation raises is an observation
+                errors.add(type(e).__name__)
+                return [math.nan] * len(xs)
+        return run
+
+    @staticmethod
+    def argtype_features(name, ty):
+        if ty == "float":
+            return set()
+        return {name + ":argtype", f"{name}:argtype:{ty}", f"{name}:argtype:{ty_group(ty)}"}
+
+    @staticmethod
+    def outside_argtype(case, both_signs=False):
+        """the undetermined outcome of a case whose arguments the argument type cannot hold (only a shrinker or a
+        hand-written replay gets here), else None"""
+        why = ty_domain(case.get("ty", "float"), [float(x) for x in case["xs"]], both_signs)
+        if why is None:
+            return None
+        return outcome({}, {}, {}, spec_ok=True, model_ok=True, undetermined=True, features=[case["kind"] + ":outside-argtype"],
+                       note=why)
+
     def eval_erf(self, case, ctx):
         from pewlib.process import convolve as cv
 
-        def run(xs):
-            if case["array"]:
-                return [float(v) for v in np.asarray(cv.erf(np.array(xs))).ravel()]
-            return [float(np.asarray(cv.erf(x)).ravel()[0]) for x in xs]
+        ty = case.get("ty", "float")
+        out = self.outside_argtype(case, both_signs=True)
+        if out is not None:
+            return out
+        kind, dt, arr0 = ty_parse(ty)
+        make = ty_make(ty)
+        unsigned = ty_unsigned(ty)
 
+        def run(xs):
+            if case["array"] and not arr0:
+                if kind == "pyfloat":
+                    arr = np.array(xs)
+                elif kind == "pyint":
+                    arr = np.array([int(x) for x in xs]) if xs else np.array([], dtype=np.int64)
+                else:
+                    arr = np.array([int(x) for x in xs] if kind in "iu" else xs, dtype=dt)
+                return [float(v) for v in np.asarray(cv.erf(arr)).ravel()]
+            return [float(np.asarray(cv.erf(make(x))).ravel()[0]) for x in xs]
+
+        errors = set()
+        run = self.guarded(run, errors)
         impl, model, spec, sok, mok, feats = self.special(
-            case, ctx, "erf", run, math.erf, lambda v, t: abs(v - t) <= ERF_ABS, "c18.erf", model_rel=1e-11, model_abs=1e-13)  # 1 - 1/(1+s)^4 cancels for tiny x
+            case, ctx, "erf", run, math.erf, lambda v, t: abs(v - t) <= ERF_ABS + (SINGLE_BUDGET if ty_single(ty) else 0.0),
+            "c18.erf", model_rel=SINGLE_BUDGET if ty_single(ty) else 1e-11,
+            model_abs=SINGLE_BUDGET if ty_single(ty) else 1e-13)  # 1 - 1/(1+s)^4 cancels for tiny x
         # oddness, bit-exact: erf(-x) == -erf(x)
         xs = [float(x) for x in case["xs"]]
-        pos, neg = run(xs), run([-x for x in xs])
-        notodd = [x.hex() for x, a, b in zip(xs, pos, neg) if not (a == -b)]
+        odd = [x for x in xs if not unsigned or x == 0]            # an unsigned type holds no negative argument
+        pos, neg = run(odd), run([-x for x in odd])
+        notodd = [x.hex() for x, a, b in zip(odd, pos, neg) if not (a == -b)]
         impl["not_odd"], spec["not_odd"] = notodd, []
+        impl["raises"], spec["raises"] = sorted(errors), []
         if any(abs(x) > 1e3 for x in xs):
             feats.add("erf:huge")
         feats.add("erf:array" if case["array"] else "erf:scalar")
-        return outcome(impl, model, spec, spec_ok=sok and not notodd, model_ok=mok, features=feats)
+        return outcome(impl, model, spec, spec_ok=sok and not notodd and not errors, model_ok=mok, features=feats)
 
     def eval_erfinv(self, case, ctx):
         from pewlib.process import convolve as cv
 
-        run = lambda xs: [float(cv.erfinv(x)) for x in xs]
-        ok = lambda v, t: (v == t) if t == 0 else abs(v - t) <= ERFINV_REL * abs(t)
+        ty = case.get("ty", "float")
+        out = self.outside_argtype(case, both_signs=True)
+        if out is not None:
+            return out
+        make, single = ty_make(ty), ty_single(ty)
+        unsigned = ty_unsigned(ty)
+        errors = set()
+        run = self.guarded(lambda xs: [float(cv.erfinv(make(x))) for x in xs], errors)
+        tol = ERFINV_REL + (SINGLE_BUDGET if single else 0.0)
+        ok = lambda v, t: (v == t) if t == 0 else abs(v - t) <= tol * abs(t)
         impl, _, spec, sok, _, feats = self.special(case, ctx, "erfinv", run, erfinv_true, ok)
         xs = [float(x) for x in case["xs"]]
-        pos, neg = run(xs), run([-x for x in xs])
+        pos = run(xs)
+        neg = pos if unsigned else run([-x for x in xs])           # an unsigned type holds 0 only: -0 is 0
         notodd = [x.hex() for x, a, b in zip(xs, pos, neg) if not (a == -b)]
+        mrel = SINGLE_BUDGET if single else 1e-10                  # single precision: log1p, sqrt, the quotients in float32
         # the model: erfinv as coded around pi, log1p and sqrt (erfinvWith).  The opaque pieces get the standard library's
         # values (math.pi, math.log1p at the float -x*x the code forms) and a 30-digit rational square root; the rest
         # (sign, constants, the two nested quotients) is evaluated exactly by the driver
@@ -794,16 +1125,18 @@ class C18(Prop):
             rep = ctx.driver.call("c18.erfinv", xs=[core.rat(xs[i]) for i in idx], ls=[core.rat(ls[i]) for i in idx],
                                   pi=core.rat(math.pi))
             for i, mv, mn in zip(idx, rep["model"], rep["model_neg"]):
-                if not near(pos[i], fl(mv), 1e-10):
+                if not near(pos[i], fl(mv), mrel):
                     differs.append([xs[i].hex(), pos[i].hex(), fl(mv).hex()])
                 if unrat(mv) != -unrat(mn):
                     modelodd.append(xs[i].hex())
+        impl["raises"], spec["raises"] = sorted(errors), []
+        sok = sok and not errors
         impl["not_odd"], impl["differs_from_erfinvWith"] = notodd, differs
         model = {"not_odd": [], "differs_from_erfinvWith": [], "model_itself_not_odd": modelodd}
         spec["not_odd"] = notodd            # oddness of erfinv is a model fact (erfinv_odd), not a clause of the property
         if any(1 - abs(x) < 1e-9 for x in xs):
             feats.add("erfinv:near-one")
-        if any(0 < abs(x) < UNDERFLOW for x in xs):
+        if any(0 < abs(x) < (F32_TINY if single else UNDERFLOW) for x in xs):
             feats.add("erfinv:underflow-range")
         if idx:
             feats.add("erfinv:model-evaluated")
@@ -812,11 +1145,42 @@ class C18(Prop):
     def eval_gamma(self, case, ctx):
         from pewlib.process import convolve as cv
 
-        run = lambda xs: [float(cv.gamma(x)) for x in xs]
+        ty = case.get("ty", "float")
+        out = self.outside_argtype(case)
+        if out is None and any(not x > 0 for x in case["xs"]):
+            out = outcome({}, {}, {}, spec_ok=True, model_ok=True, undetermined=True, features=["gamma:outside-argtype"],
+                          note="gamma: positive arguments only")
+        if out is not None:
+            return out
+        make = ty_make(ty)
+        errors = set()
+        run = self.guarded(lambda xs: [float(cv.gamma(make(x))) for x in xs], errors)
+        # single precision: as coded only 1.0 / x below one is a float32 quotient (half an ulp = 6e-8: the 3e-7 still
+        # holds, worst 2.94e-7 over every float32 below one); a rewrite may carry the product in float32
+        gtol = GAMMA_REL + (SINGLE_BUDGET if ty_single(ty) else 0.0)
         impl, model, spec, sok, mok, feats = self.special(
-            case, ctx, "gamma", run, math.gamma, lambda v, t: abs(v - t) <= GAMMA_REL * abs(t), "c18.gamma", model_rel=1e-10,
-            model_max=1e3)
+            case, ctx, "gamma", run, math.gamma, lambda v, t: abs(v - t) <= gtol * abs(t), "c18.gamma",
+            model_rel=SINGLE_BUDGET if ty_single(ty) else 1e-10, model_max=1e3)
         xs = [float(x) for x in case["xs"]]
+        # integer arguments, whatever type carries them: the Lean specification Gamma(n) = (n - 1)! (the model equals it
+        # exactly: gammaApprox_nat) - no library gamma function involved
+        ints = [i for i, x in enumerate(xs) if x == int(x) and 1 <= x <= 170]
+        if ints:
+            rep = ctx.driver.call("c18.gamma_int", ns=[int(xs[i]) for i in ints])
+            vals = run([xs[i] for i in ints])
+            badf = [[xs[i].hex(), repr(v), str(f)] for i, v, f in zip(ints, vals, rep["spec"])
+                    if not (math.isfinite(v) and abs(Fraction(v) - f) <= Fraction(gtol) * f)]
+            badm = [xs[i].hex() for i, m, f in zip(ints, rep["model"], rep["spec"]) if unrat(m) != f]
+            impl["integer_outside_factorial_tolerance"], spec["integer_outside_factorial_tolerance"] = badf, []
+            model["model_differs_from_factorial"] = badm
+            sok, mok = sok and not badf, mok and not badm
+            feats.add("gamma:integer:factorial-specification")
+            if ty_integer(ty):
+                top = max(xs[i] for i in ints)
+                # (n-1)! leaves int32 at n = 14, int64 at n = 22, the exact range of float32 at n = 12
+                feats.add("gamma:argtype:integer-typed:" + ("n>=22" if top >= 22 else "n>=14" if top >= 14 else "n<14"))
+        impl["raises"], spec["raises"] = sorted(errors), []
+        sok = sok and not errors
         if any(x < 1 for x in xs):
             feats.add("gamma:below-one")
         if any(x == int(x) for x in xs):
@@ -826,7 +1190,7 @@ class C18(Prop):
         return outcome(impl, model, spec, spec_ok=sok, model_ok=mok, features=feats)
 
     @staticmethod
-    def kernel_domain(name, size, args, axq):
+    def kernel_domain(name, size, args, axq, lim=600):
         """None when the parameters lie in the documented domain and the exact axis inside the density's support
         (the property's 'density finite on that axis'); else the reason.  Generated cases always pass; this keeps
         evaluate sound for cases a shrinker or a hand-written replay produces."""
@@ -837,11 +1201,13 @@ class C18(Prop):
             if size < 3 or args[0] < 1 or args[1] < 1 or lo < 0 or hi > 1:
                 return "beta: shapes >= 1, >= 3 points, axis inside [0, 1]"
         elif name == "exponential":
-            if args[0] <= 0 or lo < 0 or args[0] * float(lo) > 600:
+            if args[0] <= 0 or lo < 0 or args[0] * float(lo) > lim:
                 return "exponential: lambda > 0, axis inside x >= 0, density above the underflow range"
         elif name in POS_KERNELS:
             if args[0] <= 0 or lo <= 0 or (name == "inversegamma" and args[1] <= 0):
                 return name + ": positive parameters, axis inside x > 0"
+            if name == "inversegamma" and lim < 600 and (args[0] + 1) * max(0.0, -math.log10(float(lo))) > 36:
+                return "inversegamma: x ** (-alpha - 1) overflows in single precision at the first axis point"
         elif name == "triangular":
             if not (args[0] <= 0 <= args[1] and args[0] < args[1]):
                 return "triangular: a <= 0 <= b, a < b"
@@ -853,9 +1219,45 @@ class C18(Prop):
                 return "super_gaussian: integer power"
             expo = {"laplace": d, "normal": 0.5 * d * d}.get(name) if name != "super_gaussian" else \
                 0.5 * d ** (2 * int(args[2])) if d < 1e3 else math.inf
-            if expo > 600:
+            if expo > lim:
                 return name + ": no axis point carries density above the underflow range"
         return None
+
+    @staticmethod
+    def param_type_domain(name, size, args, ptype, stype):
+        """None when the parameter / size types belong to the class, else the reason (undetermined)"""
+        if ptype not in PARAM_TYPES + ["float"] or stype not in SIZE_TYPES:
+            return "parameter or size type outside the class (unsigned numpy scalars: -x wraps around)"
+        if stype != "int" and size > np.iinfo(np.dtype(stype)).max // 64:
+            return "size too large for its type"
+        if name == "inversegamma" and ptype in ("int64", "int32", "int16") and all(v == int(v) and 0 < v <= PARAM_INT_MAX for v in args[:2]):
+            if int(args[1]) ** int(args[0]) > np.iinfo(np.dtype(ptype)).max:
+                return "inversegamma: beta**alpha formed from two numpy integers leaves their type"
+        return None
+
+    @staticmethod
+    def param_conv(ptype, size):
+        """list of numbers -> (the same numbers, each in the parameter type when the type holds it, else as the Python
+        float it is; which ones were converted).  Integer types take whole numbers up to PARAM_INT_MAX (integer-only
+        subexpressions - size*scale + shift, a*(a - b), 2*power - then stay far inside int16); float32 takes
+        multiples of 1/64 up to 64 (size*0.5*scale + shift is then exact in single precision for sizes <= 1024)."""
+        def one(v):
+            if isinstance(v, bool) or not isinstance(v, (int, float)) or ptype == "float":
+                return v, False
+            if ptype == "float64":
+                return np.float64(v), True
+            if ptype == "float32":
+                if size <= 1024 and abs(v) <= 64 and v * 64 == int(v * 64):
+                    return np.float32(v), True
+                return v, False
+            if v == int(v) and abs(v) <= PARAM_INT_MAX:
+                return (int(v) if ptype == "int" else np.dtype(ptype).type(int(v))), True
+            return v, False
+
+        def conv(vals):
+            pairs = [one(v) for v in vals]
+            return [p[0] for p in pairs], [p[1] for p in pairs]
+        return conv
 
     def eval_kernel(self, case, ctx):
         from pewlib.process import convolve as cv
@@ -866,9 +1268,22 @@ class C18(Prop):
         axq = [unrat(v) for v in rep["x"]]
         if size == 1:
             return self.eval_kernel_one(case, ctx, axq)
-        why = self.kernel_domain(name, size, args, axq)
+        ptype, stype = case.get("ptype", "float"), case.get("sizetype", "int")
+        typed = "ptype" in case or "sizetype" in case
+        why = self.param_type_domain(name, size, args, ptype, stype) if typed else None
+        targs, tscale, tshift, tsize, conv = args, scale, shift, size, []
+        if why is None and typed:
+            pconv = self.param_conv(ptype, size)
+            (*targs, tscale, tshift), conv = pconv(list(args) + [scale, shift])
+            tsize = size if stype == "int" else np.dtype(stype).type(size)
+        # a single-precision parameter anywhere: numpy forms the axis and / or the density in float32 (exp underflows
+        # below -87 instead of -745; values, axis and unit sum hold to single-precision rounding)
+        single = ptype == "float32" and any(conv)
+        AX, SUM, WT, EDGE = (1e-6, 1e-5, 1e-5, 1e-5) if single else (1e-12, 1e-9, KERNEL_TOL, 1e-9)
+        if why is None:
+            why = self.kernel_domain(name, size, args, axq, lim=70 if single else 600)
         try:
-            out = np.asarray(getattr(cv, name)(size, *args, scale=scale, shift=shift), dtype=float) if why is None else None
+            out = np.asarray(getattr(cv, name)(tsize, *targs, scale=tscale, shift=tshift), dtype=float) if why is None else None
         except Exception as e:
             return outcome({"raises": type(e).__name__}, {}, {}, spec_ok=False, model_ok=False, features=["kernel:raises"])
         my = None
@@ -879,7 +1294,7 @@ class C18(Prop):
             thyp = bool(r2["hyp"])      # the hypotheses of triangular_spec: a < b and an axis point strictly inside (a, b)
             # normalisation needs an axis point that carries density whichever way the float axis rounds: one clear of
             # the support edges, or the mode 0 itself when it sits on the exact axis AND the returned axis holds 0.0 there
-            mrg = Fraction(1e-9) * max([1] + [abs(v) for v in axq])
+            mrg = Fraction(EDGE) * max([1] + [abs(v) for v in axq])
             a_, b_ = Fraction(args[0]), Fraction(args[1])
             xr = [float(v) for v in out[:, 0]] if out.ndim == 2 and out.shape == (size, 2) else [None] * size
             if not any(my) or not (any(a_ + mrg <= v <= b_ - mrg for v in axq)
@@ -892,11 +1307,11 @@ class C18(Prop):
         shape_ok = out.ndim == 2 and out.shape == (size, 2)
         x = [float(v) for v in out[:, 0]] if shape_ok else []
         y = [float(v) for v in out[:, 1]] if shape_ok else []
-        axis_ok = shape_ok and all(abs(a - b) <= 1e-12 * span for a, b in zip(x, ax))
+        axis_ok = shape_ok and all(abs(a - b) <= AX * span for a, b in zip(x, ax))
         impl = {"shape": list(out.shape), "axis_matches_linspace": bool(axis_ok),
                 "finite": bool(shape_ok and all(math.isfinite(v) for v in y)),
                 "non_negative": bool(shape_ok and all(v >= 0 for v in y)),
-                "sums_to_one": bool(shape_ok and abs(math.fsum(y) - 1.0) <= 1e-9)}
+                "sums_to_one": bool(shape_ok and abs(math.fsum(y) - 1.0) <= SUM)}
         spec = {"shape": [size, 2], "axis_matches_linspace": True, "finite": True, "non_negative": True, "sums_to_one": True}
         model, model_ok, valued = {"axis": "lean linspace", "values": "not compared"}, axis_ok, False
         if name == "triangular" and shape_ok:
@@ -904,9 +1319,9 @@ class C18(Prop):
             # (and the density jumps at 0 when a == 0 or b == 0): compare value by value only when every such point is
             # clear of the edges, or sits on one exactly both in the exact axis and in the returned one
             edges = [Fraction(args[0]), Fraction(args[1]), Fraction(0)]
-            edge = any(abs(float(v - e)) <= 1e-9 * span and not (v == e and xi == float(e))
+            edge = any(abs(float(v - e)) <= EDGE * span and not (v == e and xi == float(e))
                        for v, xi in zip(axq, x) for e in edges)
-            model_ok = axis_ok and (edge or all(abs(a - b) <= 1e-9 for a, b in zip(y, my)))
+            model_ok = axis_ok and (edge or all(abs(a - b) <= (WT if single else 1e-9) for a, b in zip(y, my)))
             model = {"axis": "lean linspace", "values": "lean triangular" + (" (edge within rounding: skipped)" if edge else "")}
         elif shape_ok:
             # the generator as modelled (density formula as coded, normalisation, stacking), the opaque exp / log / power /
@@ -919,9 +1334,9 @@ class C18(Prop):
             else:
                 my = [fl(v) for v in rk["y"]]
                 worst = max(abs(a - b) for a, b in zip(y, my)) if all(math.isfinite(v) for v in y) else math.inf
-                model_ok = axis_ok and worst <= KERNEL_TOL
+                model_ok = axis_ok and worst <= WT
                 model = {"axis": "lean linspace", "values": "lean " + name + " (40-digit exp/log/pow)",
-                         "weights_within": KERNEL_TOL if worst <= KERNEL_TOL else worst}
+                         "weights_within": WT if worst <= WT else worst}
                 valued = True
         feats = {"kernel:" + name, "kernel:size=" + (str(size) if size <= 3 else "4+")}
         if valued:
@@ -963,6 +1378,17 @@ class C18(Prop):
                 bd.add(name + ":location-on-axis")
             if name == "super_gaussian":
                 bd.add("super_gaussian:power" + ("=1" if args[2] == 1 else "=2" if args[2] == 2 else ">2"))
+        if typed:
+            if single:
+                feats.add("kernel:param-type:single-precision-tolerances")
+            feats |= {"kernel:param-type", "kernel:param-type:" + ptype, "kernel:param-type:" + name, "kernel:size-type:" + stype,
+                      "kernel:param-type:" + ("every-parameter-typed" if all(conv) else "some-parameters-typed" if any(conv)
+                                               else "no-parameter-representable")}
+            if name in ("beta", "inversegamma") and conv[0] and ptype in ("int", "int64", "int32", "int16"):
+                feats.add("kernel:param-type:gamma-of-an-integer-typed-shape")
+                top = args[0] + args[1] if name == "beta" and conv[1] else args[0]
+                if top >= 22:
+                    feats.add("kernel:param-type:gamma-of-an-integer-typed-shape>=22")
         if case.get("boundary"):
             bd.add("generated")
         feats |= {"kernel:boundary:" + f for f in bd}
@@ -999,7 +1425,8 @@ class C18(Prop):
     def known(self, case, out):
         if case.get("kind") == "erfinv":
             bad = out["impl"].get("outside_tolerance", [])
-            if bad and all(0 < abs(float.fromhex(b[0])) < UNDERFLOW for b in bad):
+            lim = F32_TINY if ty_parse(case.get("ty", "float")) is not None and ty_single(case.get("ty", "float")) else UNDERFLOW
+            if bad and all(0 < abs(float.fromhex(b[0])) < lim for b in bad):      # x*x underflows in the argument's precision
                 return "C18-erfinv-underflow"
         return None
 
